@@ -244,14 +244,18 @@ Compare(a, b, heap) ==
            [] OTHER          -> 0
 
 (***************************** tree <-> heap form *****************************)
-RECURSIVE Extern(_, _), ExternSeq(_, _), ExternPairs(_, _)
-Extern(v, heap) ==
-    IF v.t = "array" /\ "r" \in DOMAIN v THEN [t |-> "array", v |-> ExternSeq(heap[v.r].v, heap)]
-    ELSE IF v.t = "object" /\ "r" \in DOMAIN v THEN [t |-> "object", v |-> ExternPairs(heap[v.r].v, heap)]
+\* tree form up to nesting depth 16; deeper (or cyclic) structure is cut with [t |-> "deep"] - alpha does the same
+RECURSIVE ExternD(_, _, _)
+ExternD(v, heap, d) ==
+    IF v.t \in {"array", "object"} /\ d = 0 THEN [t |-> "deep"]
+    ELSE IF v.t = "array" /\ "r" \in DOMAIN v THEN
+        [t |-> "array", v |-> [i \in 1..Len(heap[v.r].v) |-> ExternD(heap[v.r].v[i], heap, d - 1)]]
+    ELSE IF v.t = "object" /\ "r" \in DOMAIN v THEN
+        [t |-> "object", v |-> [i \in 1..Len(heap[v.r].v) |-> [key |-> heap[v.r].v[i].key, val |-> ExternD(heap[v.r].v[i].val, heap, d - 1)]]]
     ELSE IF v.t = "fn" THEN [t |-> "fn"]
     ELSE v
+Extern(v, heap) == ExternD(v, heap, 16)
 ExternSeq(s, heap) == [i \in 1..Len(s) |-> Extern(s[i], heap)]
-ExternPairs(s, heap) == [i \in 1..Len(s) |-> [key |-> s[i].key, val |-> Extern(s[i].val, heap)]]
 
 \* Intern a tree value: returns [v, heap]
 RECURSIVE Intern(_, _), InternSeq(_, _, _), InternPairs(_, _, _)
